@@ -90,4 +90,76 @@ theorem list16 (d : List UInt32) (hd : d.length = 16) :
   | [d0, d1, d2, d3, d4, d5, d6, d7, d8, d9, d10, d11, d12, d13, d14, d15], _ =>
     exact ⟨d0, d1, d2, d3, d4, d5, d6, d7, d8, d9, d10, d11, d12, d13, d14, d15, rfl⟩
 
+/-! ### block writes into byte arrays (`Memory::copy` / `Memory::zero` of the translated `hmac`) -/
+
+theorem storeAt_length (a : List UInt8) (off : Nat) (src : List UInt8) :
+    (storeAt a off src).length = if off + src.length ≤ a.length then a.length else 0 := by
+  unfold storeAt
+  split
+  · simp; omega
+  · rfl
+
+theorem getElem?_storeAt (a : List UInt8) (off : Nat) (src : List UInt8) (i : Nat) :
+    (storeAt a off src)[i]? = if off + src.length ≤ a.length then
+      (if i < off then a[i]? else if i < off + src.length then src[i - off]? else a[i]?) else none := by
+  unfold storeAt
+  by_cases h : off + src.length ≤ a.length
+  · simp only [h, if_true]
+    by_cases h1 : i < off
+    · simp only [h1, if_true]
+      rw [List.append_assoc, List.getElem?_append_left (by simp; omega)]
+      simp [h1]
+    · simp only [h1, if_false]
+      rw [List.append_assoc, List.getElem?_append_right (by simp; omega)]
+      have ht : (List.take off a).length = off := by simp; omega
+      rw [ht]
+      by_cases h2 : i < off + src.length
+      · simp only [h2, if_true]
+        rw [List.getElem?_append_left (by omega)]
+      · simp only [h2, if_false]
+        rw [List.getElem?_append_right (by omega)]
+        simp
+        congr 1; omega
+  · simp [h]
+
+
+/-- closes equalities between byte arrays built from `storeAt`/`zeroAt`/`++`/`replicate`/`take`, index by index -/
+macro "blocks_ext" "[" ts:Lean.Parser.Tactic.simpLemma,* "]" : tactic =>
+  `(tactic| (apply List.ext_getElem?; intro i
+             simp only [zeroAt, getElem?_storeAt, storeAt_length, List.length_replicate, List.getElem?_append, List.getElem?_replicate,
+               List.take_length, List.length_append, List.length_take, Nat.sub_zero, Nat.zero_add, Nat.min_self, $ts,*]
+             repeat' split
+             all_goals first | rfl | omega | exact List.getElem?_eq_none (by omega) | exact Eq.symm (List.getElem?_eq_none (by omega)) | (congr 1; omega)))
+
+
+theorem u32_ofNat_toNat (i : Nat) (h : i < 64) : (UInt32.ofNat i).toNat = i := by
+  simp [UInt32.toNat_ofNat']; omega
+
+theorem reusable_ok_and (p : Sha) (b : Bool) (hp : Reusable p) (hb : b = true) : Reusable { p with ok := p.ok && b } :=
+  ⟨hp.1, hp.2.1, hp.2.2.1, by simp [hp.2.2.2, hb]⟩
+
+theorem take_wr_succ (l hk : List UInt8) (f : UInt8 → UInt8) (i : Nat) (hi : i < l.length) (hh : hk.length = l.length) :
+    (wr l i (f (hk.getD i 0))).take (i + 1) ++ (hk.drop (i + 1)).map f = l.take i ++ (hk.drop i).map f := by
+  have e1 : (wr l i (f (hk.getD i 0))).take (i + 1) = l.take i ++ [f (hk.getD i 0)] := by
+    simp only [wr, hi, if_true]
+    rw [List.take_add_one]
+    simp [List.take_set_of_le, hi]
+  have e2 : hk.drop i = hk.getD i 0 :: hk.drop (i + 1) := by
+    have : i < hk.length := by omega
+    rw [List.getD_eq_getElem?_getD, List.getElem?_eq_getElem this, Option.getD_some]
+    exact List.drop_eq_getElem_cons this
+  rw [e1, e2]
+  simp
+
+theorem sha_eta (x : Sha) : (⟨x.state, x.count, x.buffer, x.ok⟩ : Sha) = x := rfl
+
+theorem storeAt_full (a src : List UInt8) (h : src.length = a.length) : storeAt a 0 src = src := by
+  simp [storeAt, h]
+
+theorem hmacKey_length (key : List UInt8) : (Spec.hmacKey key).length = 64 := by
+  unfold Spec.hmacKey Spec.B
+  by_cases hl : key.length > 64
+  · simp [hl, sha256_length]
+  · simp [hl]; omega
+
 end Nstd.Sha
